@@ -34,8 +34,19 @@ func c12Pool() []*poolTable {
 	}
 	t2 := append(append([][]string{}, t1...), []string{"zzzz", "v"})
 	t3 := [][]string{{"x1", "p"}, {"x2", "q"}}
-	for _, rows := range [][][]string{t1, t2, t3} {
-		st := storeTable([]string{"k", "v"}, []int{0}, rows)
+	// the fourth table has the rows of the first under another primary key: same blocks,
+	// different block indices
+	// the fifth has a composite key whose columns are not in column order
+	t5 := [][]string{{"x1", "p"}, {"x2", "q"}, {"x0", "q"}}
+	for ti, rows := range [][][]string{t1, t2, t3, t1, t5} {
+		pk := []int{0}
+		if ti == 3 {
+			pk = []int{0, 1}
+		}
+		if ti == 4 {
+			pk = []int{1, 0}
+		}
+		st := storeTable([]string{"k", "v"}, pk, rows)
 		pt := &poolTable{st: st}
 		pt.keys = append(pt.keys, "tbl/"+string(st.sum), "tblidx/"+string(st.sum), "tblsum/"+string(st.sum))
 		for i := range st.tbl.Blocks {
@@ -167,6 +178,9 @@ func c12Body(c *mc.Ctx) {
 	tblOf := make([]int, n)
 	for i := range tblOf {
 		tblOf[i] = c.Choose(3)
+		if c.ChooseDev(2) == 1 {
+			tblOf[i] = 3 // the re-keyed table (deviation)
+		}
 	}
 	absent := c.ChooseDev(8)
 	nrefs := c.Choose(3)
@@ -345,7 +359,7 @@ func init() {
 	register(&mc.Check{
 		ID:    "C12",
 		Level: "exploration",
-		Rule: "every commit DAG with 1..3 (thorough 4) nodes x every assignment of tables from a pool {300 rows, the same + 1 trailing row (shares a block), 2 rows} x 0..2 refs on any node x which ref is deleted between prunes, completely; crossed with up to d deviations over: ref kind {head, tag, remote-tracking, transaction ref}, " +
+		Rule: "every commit DAG with 1..3 (thorough 4) nodes x every assignment of tables from a pool {300 rows, the same + 1 trailing row (shares a block), 2 rows, the 300 rows again under a two-column key (same blocks, other block indices)} x 0..2 refs on any node x which ref is deleted between prunes, completely; crossed with up to d deviations over: ref kind {head, tag, remote-tracking, transaction ref}, " +
 			"a set of tables absent (shallow commits), a table lacking its profile / a stray block of an absent table. Script per case: prune; delete the chosen ref; prune; prune again. After every prune the store is compared with a reachability model computed on the pre-prune snapshot: " +
 			"every reachable commit and every object of its table that existed is byte-identical and the table still passes the structural oracle; every unreachable commit, every table only they referenced and every block only those tables referenced is gone; the third prune changes nothing; no panic, no error. " +
 			"cli: wrgl prune / wrgl gc after branch deletion and reset on an on-disk repository, exports compared. non-trivial = at least 2 commits and 1 ref; distinct by case description",
